@@ -105,6 +105,36 @@ pub fn pool(tier: Tier) -> Vec<V> {
             p.push(V::dict(&[("a", c.clone())]));
         }
     }
+    // differences far from the start: long strings sharing a prefix, the last of six elements, a
+    // middle key of five, a leaf four levels down; case / blank / NUL / normalisation neighbours
+    for (x, y) in [("aaaaaaaaaaaaaaaaab", "aaaaaaaaaaaaaaaaac"), ("aaaaaaaaa", "aaaaaaaaab"), ("Straße", "Strasse"), ("e\u{301}", "\u{e9}"), ("abc", "ABC"), ("abc", "abc "), ("abc", "abc\u{0}"), ("x".repeat(40).as_str(), ("x".repeat(39) + "y").as_str())] {
+        p.push(V::str(x));
+        p.push(V::str(y));
+        p.push(V::Uri(x.into()));
+        p.push(V::Ref("r".into(), Some(y.into())));
+    }
+    let six = |last: f64| V::List((0..5).map(|i| V::num(i as f64)).chain(std::iter::once(V::num(last))).collect());
+    p.push(six(5.0));
+    p.push(six(6.0));
+    p.push(V::List((0..5).map(|i| V::num(i as f64)).collect()));
+    let five = |mid: &str| V::dict(&[("a", V::num(1.0)), ("b", V::num(2.0)), ("c", V::str(mid)), ("d", V::num(4.0)), ("e", V::num(5.0))]);
+    p.push(five("x"));
+    p.push(five("y"));
+    let deep = |leaf: V| V::List(vec![V::dict(&[("a", V::List(vec![V::dict(&[("b", leaf)])]))])]);
+    p.push(deep(V::num(1.0)));
+    p.push(deep(V::num(2.0)));
+    p.push(deep(V::numu(1.0, "m")));
+    p.push(V::Coord(91.0, 181.0));
+    p.push(V::Coord(91.0, -181.0));
+    p.push(V::Coord(-91.0, 181.0));
+    p.push(V::Time(13, 0, 0, 0));
+    p.push(V::Time(13, 0, 0, 1));
+    p.push(V::Time(23, 59, 59, 999_999_999));
+    p.push(V::Date(1969, 12, 31));
+    p.push(V::Date(1, 1, 1));
+    p.push(V::Date(0, 12, 31));
+    p.push(V::XStr("Bin".into(), "a".into()));
+    p.push(V::XStr("bin".into(), "a".into()));
     // lists that are prefixes of each other
     p.push(V::List(vec![]));
     p.push(V::List(vec![V::num(1.0), V::num(2.0)]));
@@ -139,6 +169,13 @@ pub fn pool(tier: Tier) -> Vec<V> {
     p.push(grid("3.0", None, vec![("a", None)], vec![vec![("a", V::numu(1.0, "s"))]]));
     p.push(grid("3.0", None, vec![("a", None)], vec![vec![("a", V::num(0.0))]]));
     p.push(grid("3.0", None, vec![("a", None)], vec![vec![("a", V::num(-0.0))]]));
+    // rows: same rows in another order, one row twice, four rows differing in the last one
+    let r3 = vec![("a", V::num(3.0))];
+    p.push(grid("3.0", None, vec![("a", None)], vec![r1.clone(), r2.clone(), r3.clone(), r1.clone()]));
+    p.push(grid("3.0", None, vec![("a", None)], vec![r1.clone(), r3.clone(), r2.clone(), r1.clone()]));
+    p.push(grid("3.0", None, vec![("a", None)], vec![r1.clone(), r2.clone(), r3.clone(), r2.clone()]));
+    p.push(grid("3.0", None, vec![("a", None)], vec![r1.clone(), r1.clone()]));
+    p.push(grid("3.0", None, vec![("b", None), ("a", None)], vec![r1.clone()]));
     p
 }
 
